@@ -43,19 +43,21 @@ type LVal struct {
 }
 
 type C17Line struct {
-	Src      string `json:"src"`
-	Legacy   string `json:"legacy"`
-	Migrated string `json:"migrated"`
-	MigErr   string `json:"migrate_err"`
-	Parses   bool   `json:"parses"`
-	Den      LVal   `json:"den"`
-	Got      LVal   `json:"got"`
-	TextSame bool   `json:"text_outside_same"`
-	Top      string `json:"top"`
-	Left     string `json:"left"`
-	Right    string `json:"right"`
-	Panic    string `json:"panic"`
-	Desc     string `json:"desc"`
+	Src        string `json:"src"`
+	Legacy     string `json:"legacy"`
+	Migrated   string `json:"migrated"`
+	MigErr     string `json:"migrate_err"`
+	Parses     bool   `json:"parses"`
+	Den        LVal   `json:"den"`
+	SelfOK     bool   `json:"self_ok"`
+	SelfDetail string `json:"self_detail"`
+	Got        LVal   `json:"got"`
+	TextSame   bool   `json:"text_outside_same"`
+	Top        string `json:"top"`
+	Left       string `json:"left"`
+	Right      string `json:"right"`
+	Panic      string `json:"panic"`
+	Desc       string `json:"desc"`
 }
 
 func renderLegacy(toks []etok) string {
@@ -213,6 +215,37 @@ func c17Legacy(args []string) error {
 			}
 			if verr != nil && line.Got.T == "" {
 				line.Got = LVal{"error", verr.Error()}
+			}
+			// migrated with DefaultToSelf (what RapidPro did with an expression it could not evaluate: show it as it was
+			// written): the template renders like the plain migration's, except that an expression which fails to evaluate
+			// renders as its LEGACY source text
+			line.SelfOK = true
+			// (literals with a backslash are left to the recorded finding about backslashes in legacy literals)
+			if selfMig, serr := expressions.MigrateTemplate(line.Legacy, &expressions.MigrateOptions{DefaultToSelf: true}); serr == nil && !strings.Contains(expr, `\`) {
+				plainOut, _, _ := excellent.NewEvaluator().Template(env, ctx, migrated, nil)
+				selfOut, _, _ := excellent.NewEvaluator().Template(env, ctx, selfMig, nil)
+				want := plainOut
+				if line.Got.T == "error" {
+					want = prefix + "@(" + expr + ")" + strings.ReplaceAll(suffix, "@@", "@")
+				}
+				if selfOut != want {
+					line.SelfOK = false
+					line.SelfDetail = fmt.Sprintf("%q renders %q, expected %q", selfMig, selfOut, want)
+				}
+				// the same expression made to fail at run time (divided by zero): it must be shown as it was written
+				failing := prefix + "@((" + expr + ") / 0)" + suffix
+				if fm, ferr := expressions.MigrateTemplate(failing, &expressions.MigrateOptions{DefaultToSelf: true}); ferr == nil && line.SelfOK {
+					if pm, perr := expressions.MigrateTemplate(failing, nil); perr == nil {
+						inner2 := strings.TrimSuffix(strings.TrimPrefix(pm, prefix), suffix)
+						if v2, _, _ := excellent.NewEvaluator().TemplateValue(env, ctx, inner2); types.IsXError(v2) {
+							fo, _, _ := excellent.NewEvaluator().Template(env, ctx, fm, nil)
+							if w2 := prefix + "@((" + expr + ") / 0)" + strings.ReplaceAll(suffix, "@@", "@"); fo != w2 {
+								line.SelfOK = false
+								line.SelfDetail = fmt.Sprintf("%q renders %q, expected %q", fm, fo, w2)
+							}
+						}
+					}
+				}
 			}
 		}()
 		n++
